@@ -71,3 +71,14 @@ Lemma exp_item_spec base max jit i : 0 <= base ->
 Proof.
   intros Hb. unfold exp_item, add_jitter. rewrite (raw_curve base max i Hb). reflexivity.
 Qed.
+
+(* the handler uses every delay of the schedule, in order, as long as attempts keep failing *)
+Lemma handler_run_all_fail : forall sched k,
+  handler_run sched (repeat AFail k) = firstn k sched.
+Proof.
+  induction sched as [|d r IH]; intros k; destruct k as [|k]; try reflexivity.
+  cbn [repeat handler_run firstn]. rewrite IH. reflexivity.
+Qed.
+
+Lemma handler_all_fail d0 r k : handler (d0 :: r) (repeat AFail k) = Some (firstn (S k) (d0 :: r)).
+Proof. cbn [handler firstn]. rewrite handler_run_all_fail. reflexivity. Qed.
